@@ -9,6 +9,7 @@ EXTENDS C01Grammar
 C03CtxText == "(def e :outer-e) (def thrower (fn [v] (throw v))) " \o
            "(def deep (fn [n v] (if (< n 1) (throw v) (deep (- n 1) v)))) " \o
            "(defmacro mthrow (fn [v] `(throw ~v))) " \o
+           "(defmacro mfail (fn [v] (throw v))) " \o
            "(def at (atom 1))"
 C03CtxForms == ReadAll(C03CtxText)
 
@@ -18,7 +19,11 @@ C03G == Grammar(
     "(go-error \"user:g\")", "(panic \"p\")", "(panic (go-error \"user:q\"))",
     \* an update function that writes the atom being swapped and then throws: the throw is delivered, not retried away
     "(swap! at (fn [v] (reset! at (+ v 1)) (throw :stale)))">>,
-  <<"(error-string _1)", "(unwrap-error _1)", "(throw _1)", "(thrower _1)", "(deep 2 _1)", "(mthrow _1)", "(try _1)", "(try _1 (catch e e))",
+  <<"(error-string _1)", "(unwrap-error _1)", "(mfail _1)",
+    \* ... through builtins that call back into lisp
+    "(update {:a 1} :a (fn [q] _1))", "(update-in {:a {:b 1}} [:a :b] (fn [q] _1))", "(map (fn [q] _1) [1 2])",
+    "(apply (fn [q] _1) [1])", "(swap! (atom 1) (fn [q] _1))",
+    "(throw _1)", "(thrower _1)", "(deep 2 _1)", "(mthrow _1)", "(try _1)", "(try _1 (catch e e))",
     "(try _1 (catch e :h))", "(try _1 (catch e (throw e)))", "(try _1 (catch e (trace! e)))",
     "(try _1 (finally (trace! :f)))", "(try _1 (finally (trace! e)))",
     "(try _1 (catch e e) (finally (trace! e)))", "(list _1 e)", "(trace! _1)",
